@@ -42,7 +42,7 @@ def main():
         rc1, _ = sh(["/venv/bin/python", demo], cwd=work, env={"PYTHONPATH": tree})
         out["demo_fails_with"] = (rc1 != 0)
         coqcopy = os.path.join(work, "coq")
-        shutil.copytree(os.path.join(ROOT, "coq"), coqcopy)
+        shutil.copytree(os.path.join(ROOT, "coq"), coqcopy, ignore=shutil.ignore_patterns("corr", "*.aux", "*.glob", ".lia.cache", ".nia.cache"))
         envx = {"PYMWP_REPO": tree, "VERIF_COQ_DIR": coqcopy, "VERIF_EVID_DIR": os.path.join(work, "evidence"),
                 "VERIF_REPLAY_DIR": os.path.join(work, "replays"), "VERIF_NO_SEED_CORPUS": "1"}
         rc, o = sh(["/venv/bin/python", os.path.join(ROOT, "tools", "check.py"), cid, "--tier", tier], cwd=ROOT, env=envx)
